@@ -98,6 +98,21 @@ func linearGen(r *rand.Rand, n int, tier string, emit func(Case)) {
 		case 2:
 			emit(Case{"kind": "even", "line": intLine(r), "n": r.Intn(53) - 2, "ct": r.Intn(4)})
 		case 3:
+			if r.Intn(6) == 0 {
+				// a slab with two or three square holes of different sizes side by side, in any order, and thresholds
+				// around the hole sizes: some holes collapse, the others must survive whatever their position
+				sizes := [][]int{{1, 4}, {4, 1}, {1, 3, 5}, {5, 1, 3}, {3, 5, 1}, {2, 6}, {6, 2}, {1, 1, 4}, {4, 1, 1}}[r.Intn(9)]
+				x := 1
+				w := "POLYGON((0 0,30 0,30 10,0 10,0 0)"
+				for _, sz := range sizes {
+					w += fmt.Sprintf(",(%d 2,%d %d,%d %d,%d 2,%d 2)", x, x, 2+sz, x+sz, 2+sz, x+sz, x)
+					x += sz + 2
+				}
+				w += ")"
+				td := []int{1, 2, 4}[r.Intn(3)]
+				emit(Case{"kind": "simplifypoly", "w": w, "tn": r.Intn(7*td + 1), "td": td, "ct": r.Intn(4)})
+				continue
+			}
 			if r.Intn(3) == 0 {
 				l := &lgen{r: r, N: 4 + r.Intn(9)}
 				td := []int{1, 2, 4}[r.Intn(3)]
